@@ -774,7 +774,11 @@ impl Driver {
             let fs = self.world.fs.borrow();
             for eff in &fs.trace[s..e] {
                 let class = eff.eff.class();
-                if matches!(class, Class::Open | Class::Read | Class::Create | Class::SetLen | Class::Write | Class::SyncData | Class::Unlink | Class::Seek) {
+                // a create_new that fails because the name is taken neither reads nor modifies the entry holding it
+                if matches!(&eff.eff, Eff::Fail { class: Class::Create, injected: false, .. }) {
+                    continue;
+                }
+                if matches!(class, Class::Open | Class::Read | Class::Create | Class::SetLen | Class::Write | Class::SyncData | Class::Unlink | Class::Seek | Class::Rename) {
                     if let Some(t) = eff.eff.target() {
                         let foreign_node = self.foreign.get(t);
                         if !is_wal_name(t) || foreign_node.is_some() {
